@@ -223,7 +223,7 @@ def cases(tier, seed):
         yield {"label": "concurrent-first-use", "kind": "concurrent", "seed": seed * 7919 + i, "threads": [2, 4, 8][i % 3], "p": [0.0, 0.1, 0.3, 0.6][i % 4],
                "n": [6, 40, 120][(i // 3) % 3]}
     for depth in ([50, 150, 240, 300, 450, 600] if tier == "quick" else [50, 100, 150, 200, 220, 240, 260, 280, 300, 330, 360, 400, 450, 500, 600]):
-        for shape in ("list", "tuple", "dict", "mixed"):
+        for shape in ("list", "tuple", "dict", "mixed", "list-over-tuple", "list-over-intkey-dict", "list-over-dict"):
             yield {"label": "deep", "seed": seed * 31 + depth, "kind": "deep", "depth": depth, "shape": shape}
 
 
@@ -243,6 +243,10 @@ def run_case(case):
         depth = case["depth"]
         shape = case["shape"]
         v = rng.choice([1, "x", None, Decimal("1")])
+        if shape.startswith("list-over-"):
+            # a long single path of plain lists (the cheap JSON path) ending in something plain JSON cannot express
+            v = {"list-over-tuple": (1, 2), "list-over-intkey-dict": {1: "one", 2: "two"}, "list-over-dict": {"a": (1,)}}[shape]
+            shape = "list"
         for d in range(depth):
             k = shape if shape != "mixed" else rng.choice(["list", "tuple", "dict"])
             v = [v] if k == "list" else ((v,) if k == "tuple" else {"k": v})
